@@ -1,0 +1,11 @@
+//go:build !verif
+
+package broadcast
+
+import "time"
+
+// verifLoopTicker is a no-op outside conformance-harness builds (see verif_hooks.go).
+func verifLoopTicker(*ltBroadcast, string, *time.Ticker) {}
+
+// verifLoopDone is a no-op outside conformance-harness builds (see verif_hooks.go).
+func verifLoopDone(*ltBroadcast, string) {}
